@@ -208,6 +208,8 @@ class Builder:
                 o.setdefault("replace", []).append((mm.group(1), mm.group(2)))
             elif p[0] == "external_body_consts":
                 o["external_body_consts"] = p[1].split()
+            elif p[0] == "key":
+                o["key"] = p[1].strip()
             elif p[0] == "makepub":
                 o["makepub"] = True
             elif p[0] == "pubfields":
@@ -239,7 +241,7 @@ class Builder:
             self.emit_plain_item(rel, src, m, it)
         elif kw == "fn":
             qual = self.qualname(sel, it)
-            self.emit_fn(rel, src, m, it, [qual, it_name(it)], o)
+            self.emit_fn(rel, src, m, it, [o["key"]] if o.get("key") else [qual, it_name(it)], o)
         elif kw in ("impl", "trait"):
             self.emit_container(rel, src, m, it, kw, o)
         else:
@@ -750,6 +752,11 @@ class Builder:
                 for mm in re.finditer(r"\.\s*try_into\s*\(", m[a:b]):
                     edits.append(Edit(a + mm.start(), a + mm.end(), [Seg(".vx_try_into_passkey(", "repo", fn=qual)]))
                     self.count("R12b")
+            if rule[0] == "R17":
+                # Vec::with_capacity(n) -> wrapper with the allocation-policy precondition
+                for mm in re.finditer(r"(?<![A-Za-z0-9_])Vec\s*::\s*with_capacity\s*\(", m[a:b]):
+                    edits.append(Edit(a + mm.start(), a + mm.end(), [Seg("vx_vec_with_capacity(", "repo", fn=qual)]))
+                    self.count("R17")
             if rule[0] == "R4d":
                 # slice.try_into().unwrap() producing an array -> trusted wrapper whose precondition is the length
                 for mm in re.finditer(r"\.\s*try_into\s*\(\s*\)\s*\.\s*unwrap\s*\(\s*\)", m[a:b]):
